@@ -782,4 +782,334 @@ theorem phLL_pending {n0 n1 a : Nat} {y0 : Inst} {e1 : Nat} {b : Bus} {k : Nat} 
   | 1, hk => exact p0 hk.1
   | 0, hk => rcases hk with hk | hk; exact p1 hk.2.1; exact p0 hk.1
 
+/-! ## polls and clock advances during the contest -/
+
+theorem isACS_end (f : Flavor) (now : Nat) (d : Dev) :
+    (isAddressClaimStarted f now d).1.endSource = d.endSource ∨ (isAddressClaimStarted f now d).1.endSource = updEnd d.source := by
+  unfold isAddressClaimStarted
+  split
+  · split
+    · right; rfl
+    · left; rfl
+  · left; rfl
+
+/-- `ParseMessages` with nothing to read on an open one-device instance: no frame, no address change; the claim timer may
+run out, which moves the end-of-search address to the address before the current one -/
+theorem lib_poll (x : Inst) (nm a : Nat) (d : Dev) (h : LibAt x nm a) (hd : x.s.devs = [d]) :
+    LibAt (libParse x []).1 nm a ∧ (libParse x []).2 = [] ∧ (x.addressChanged = true → (libParse x []).1.addressChanged = true) ∧
+    ∃ d', (libParse x []).1.s.devs = [d'] ∧ (d'.endSource = d.endSource ∨ d'.endSource = updEnd a) := by
+  have hc := libAt_clear h
+  have hp : (libParse x []).1 = heartbeatPass (clearSent x) := by
+    unfold libParse; simp only; rw [parse_open (clearSent x) h.2.1 hc.1.send]; rfl
+  have h2 : (libParse x []).2 = (libParse x []).1.s.drv.sent := rfl
+  obtain ⟨d0, hd0, _, hds⟩ := h.dev
+  rw [hd] at hd0; cases hd0
+  refine ⟨?_, by rw [h2, hp, hb_sent]; rfl, fun hx => ?_, ?_⟩
+  · rw [hp]; exact ⟨(heartbeatPass_post _ hc.1).1, by rw [hb_open]; exact hc.2.1, by rw [hb_map]; exact hc.2.2⟩
+  · rw [hp]; unfold heartbeatPass; split <;> exact hx
+  · rw [hp]; unfold heartbeatPass
+    have hcd : (clearSent x).s.devs = [d] := hd
+    rw [if_pos hc.1.send.cm]
+    refine ⟨(isAddressClaimStarted (clearSent x).s.flavor (clearSent x).s.now d).1, by simp [hcd], ?_⟩
+    rw [← hds]; exact isACS_end _ _ d
+
+/-- a step in which node `i` becomes `k'` with the same inbox and sends nothing leaves all other nodes as they are -/
+theorem act_quiet_other (b : Bus) (i j : Nat) (hij : j ≠ i) (k' : Kind) (inb : List Frame) :
+    (act b i (k', []) inb).node j = b.node j := by
+  rw [act_node_other b i j hij]; split
+  · simp
+  · rfl
+
+/-- the schedule events of the timed theorems -/
+inductive Sch where
+  | deliver (i : Nat)
+  | poll (i : Nat)
+  | adv (dt : Nat)
+
+def Sch.toEv : Sch → Ev
+  | .deliver i => .deliver i
+  | .poll i => .poll i
+  | .adv dt => .adv dt
+
+/-- node `i` (a library instance) is polled -/
+theorem side_poll_self {b : Bus} {i nm A : Nat} {inb : List Iso.Claim} (hi : i < b.n) (h : Side b i nm A inb) :
+    Side (step b (.poll i)) i nm A inb ∧ (∀ j, j ≠ i → (step b (.poll i)).node j = b.node j) ∧
+    (ChgAt b i → ChgAt (step b (.poll i)) i) ∧
+    (∀ x d, (b.node i).kind = .lib x → x.s.devs = [d] → ∃ x' d', ((step b (.poll i)).node i).kind = .lib x' ∧ x'.s.devs = [d'] ∧
+        (d'.endSource = d.endSource ∨ d'.endSource = updEnd A)) := by
+  obtain ⟨⟨x, hk, hx⟩, h0, hb0⟩ := h
+  obtain ⟨d, hd, _⟩ := hx.dev
+  have lp := lib_poll x nm A d hx hd
+  have hstep : step b (.poll i) = act b i (.lib (libParse x []).1, []) (b.node i).inbox := by
+    simp only [step, hi, ↓reduceIte, hk, kindPoll, lp.2.1]
+  rw [hstep]
+  refine ⟨⟨⟨_, by rw [act_node_self], lp.1⟩, by rw [act_node_self]; exact h0, hb0⟩,
+    fun j hj => act_quiet_other b i j hj _ _, fun ⟨x1, hk1, hc⟩ => ?_, fun x1 d1 hk1 hd1 => ?_⟩
+  · rw [hk] at hk1; cases hk1
+    exact ⟨_, by rw [act_node_self], lp.2.2.1 hc⟩
+  · rw [hk] at hk1; cases hk1
+    rw [hd] at hd1; cases hd1
+    obtain ⟨d', hd', he⟩ := lp.2.2.2
+    exact ⟨_, d', by rw [act_node_self], hd', he⟩
+
+/-- the clock advances: every library instance keeps devices, latches and inbox -/
+theorem side_adv {b : Bus} {i nm A : Nat} {inb : List Iso.Claim} (dt : Nat) (h : Side b i nm A inb) :
+    Side (step b (.adv dt)) i nm A inb := by
+  obtain ⟨⟨x, hk, hx⟩, h0, hb0⟩ := h
+  refine ⟨⟨{ x with s := { x.s with now := x.s.now + dt } }, ?_, libOK_of_fields x _ hx.1 rfl rfl rfl rfl rfl rfl rfl, hx.2.1, hx.2.2⟩, ?_, hb0⟩
+  · simp only [step, hk, kindAdv]
+  · simp only [step]; exact h0
+
+theorem chgAt_adv {b : Bus} {i : Nat} (dt : Nat) (h : ChgAt b i) : ChgAt (step b (.adv dt)) i := by
+  obtain ⟨x, hk, hx⟩ := h
+  exact ⟨{ x with s := { x.s with now := x.s.now + dt } }, by simp only [step, hk, kindAdv], hx⟩
+
+theorem side_congr {b b' : Bus} {j nm A : Nat} {inb : List Iso.Claim} (h : b'.node j = b.node j) (s : Side b j nm A inb) :
+    Side b' j nm A inb := by unfold Side at *; rw [h]; exact s
+
+theorem chgAt_congr {b b' : Bus} {j : Nat} (h : b'.node j = b.node j) (s : ChgAt b j) : ChgAt b' j := by
+  unfold ChgAt at *; rw [h]; exact s
+
+/-- node 1's only device has the end-of-search address `e0`, or the one a claim-timer expiry at address `a` sets -/
+def EndIn (b : Bus) (a e0 : Nat) : Prop :=
+  ∃ y d, (b.node 1).kind = .lib y ∧ y.s.devs = [d] ∧ (d.endSource = e0 ∨ d.endSource = updEnd a)
+
+/-- where the loser can end: the next address seen from `e0`, or seen from the end-of-search address of an expired claim timer -/
+def R (a e0 r : Nat) : Prop := r = nxt a e0 ∨ r = nxt a (updEnd a)
+
+/-- timed phase table of the library-vs-library contest (node 0 lower NAME) -/
+def PhT (n0 n1 a e0 : Nat) (k : Nat) (b : Bus) : Prop :=
+  b.n = 2 ∧
+  match k with
+  | 4 => Side b 0 n0 a [(n1, a)] ∧ Side b 1 n1 a [(n0, a)] ∧ EndIn b a e0
+  | 3 => (Side b 0 n0 a [] ∧ Side b 1 n1 a [(n0, a), (n0, a)] ∧ EndIn b a e0) ∨
+         (∃ r, R a e0 r ∧ Side b 0 n0 a [(n1, a), (n1, r)] ∧ Side b 1 n1 r [] ∧ ChgAt b 1)
+  | 2 => ∃ r, R a e0 r ∧ Side b 0 n0 a [(n1, r)] ∧ Side b 1 n1 r [(n0, a)] ∧ ChgAt b 1
+  | 1 => ∃ r, R a e0 r ∧ ((Side b 0 n0 a [] ∧ Side b 1 n1 r [(n0, a)]) ∨ (Side b 0 n0 a [(n1, r)] ∧ Side b 1 n1 r [])) ∧ ChgAt b 1
+  | 0 => ∃ r, R a e0 r ∧ Side b 0 n0 a [] ∧ Side b 1 n1 r [] ∧ ChgAt b 1
+  | _ => False
+
+/-- `b'` is `b` after a poll or a clock advance, as far as the phase table can see -/
+structure Pres (n1 a e0 : Nat) (b b' : Bus) : Prop where
+  n : b'.n = b.n
+  side : ∀ j nm A inb, j < 2 → Side b j nm A inb → Side b' j nm A inb
+  chg : ChgAt b 1 → ChgAt b' 1
+  endIn : ∀ inb, Side b 1 n1 a inb → EndIn b a e0 → EndIn b' a e0
+
+theorem phT_pres {n0 n1 a e0 k : Nat} {b b' : Bus} (p : Pres n1 a e0 b b') (h : PhT n0 n1 a e0 k b) : PhT n0 n1 a e0 k b' := by
+  obtain ⟨hn, hk⟩ := h
+  refine ⟨by rw [p.n]; exact hn, ?_⟩
+  match k, hk with
+  | 4, ⟨s0, s1, e⟩ => exact ⟨p.side _ _ _ _ (by omega) s0, p.side _ _ _ _ (by omega) s1, p.endIn _ s1 e⟩
+  | 3, hk =>
+    rcases hk with ⟨s0, s1, e⟩ | ⟨r, hr, s0, s1, c⟩
+    · exact Or.inl ⟨p.side _ _ _ _ (by omega) s0, p.side _ _ _ _ (by omega) s1, p.endIn _ s1 e⟩
+    · exact Or.inr ⟨r, hr, p.side _ _ _ _ (by omega) s0, p.side _ _ _ _ (by omega) s1, p.chg c⟩
+  | 2, ⟨r, hr, s0, s1, c⟩ => exact ⟨r, hr, p.side _ _ _ _ (by omega) s0, p.side _ _ _ _ (by omega) s1, p.chg c⟩
+  | 1, ⟨r, hr, hs, c⟩ =>
+    refine ⟨r, hr, ?_, p.chg c⟩
+    rcases hs with ⟨s0, s1⟩ | ⟨s0, s1⟩
+    · exact Or.inl ⟨p.side _ _ _ _ (by omega) s0, p.side _ _ _ _ (by omega) s1⟩
+    · exact Or.inr ⟨p.side _ _ _ _ (by omega) s0, p.side _ _ _ _ (by omega) s1⟩
+  | 0, ⟨r, hr, s0, s1, c⟩ => exact ⟨r, hr, p.side _ _ _ _ (by omega) s0, p.side _ _ _ _ (by omega) s1, p.chg c⟩
+
+theorem phT_sides {n0 n1 a e0 k : Nat} {b : Bus} (h : PhT n0 n1 a e0 k b) :
+    b.n = 2 ∧ (∃ A inb, Side b 0 n0 A inb) ∧ (∃ A inb, Side b 1 n1 A inb) := by
+  obtain ⟨hn, hk⟩ := h
+  refine ⟨hn, ?_⟩
+  match k, hk with
+  | 4, ⟨s0, s1, _⟩ => exact ⟨⟨_, _, s0⟩, ⟨_, _, s1⟩⟩
+  | 3, hk =>
+    rcases hk with ⟨s0, s1, _⟩ | ⟨r, _, s0, s1, _⟩
+    · exact ⟨⟨_, _, s0⟩, ⟨_, _, s1⟩⟩
+    · exact ⟨⟨_, _, s0⟩, ⟨_, _, s1⟩⟩
+  | 2, ⟨r, _, s0, s1, _⟩ => exact ⟨⟨_, _, s0⟩, ⟨_, _, s1⟩⟩
+  | 1, ⟨r, _, hs, _⟩ =>
+    rcases hs with ⟨s0, s1⟩ | ⟨s0, s1⟩
+    · exact ⟨⟨_, _, s0⟩, ⟨_, _, s1⟩⟩
+    · exact ⟨⟨_, _, s0⟩, ⟨_, _, s1⟩⟩
+  | 0, ⟨r, _, s0, s1, _⟩ => exact ⟨⟨_, _, s0⟩, ⟨_, _, s1⟩⟩
+
+theorem step_poll_n (b : Bus) (i : Nat) : (step b (.poll i)).n = b.n := by
+  simp only [step]; split <;> rfl
+
+theorem pres_poll {n0 n1 a e0 : Nat} {b : Bus} {A0 A1 : Nat} {in0 in1 : List Iso.Claim} (hn : b.n = 2) (s0 : Side b 0 n0 A0 in0)
+    (s1 : Side b 1 n1 A1 in1) (i : Nat) : Pres n1 a e0 b (step b (.poll i)) := by
+  by_cases hi : i < b.n
+  · rw [hn] at hi
+    rcases (by omega : i = 0 ∨ i = 1) with rfl | rfl
+    · have sp := side_poll_self (by omega) s0
+      refine ⟨step_poll_n b 0, fun j nm A inb hj s => ?_, fun c => chgAt_congr (sp.2.1 1 (by omega)) c, fun inb s e => ?_⟩
+      · rcases (by omega : j = 0 ∨ j = 1) with rfl | rfl
+        · exact (side_poll_self (by omega) s).1
+        · exact side_congr (sp.2.1 1 (by omega)) s
+      · unfold EndIn at *; rw [sp.2.1 1 (by omega)]; exact e
+    · have sp := side_poll_self (by omega) s1
+      refine ⟨step_poll_n b 1, fun j nm A inb hj s => ?_, fun c => sp.2.2.1 c, fun inb s e => ?_⟩
+      · rcases (by omega : j = 0 ∨ j = 1) with rfl | rfl
+        · exact side_congr (sp.2.1 0 (by omega)) s
+        · exact (side_poll_self (by omega) s).1
+      · obtain ⟨y, d, hk, hd, he⟩ := e
+        obtain ⟨y', d', hk', hd', he'⟩ := (side_poll_self (by omega) s).2.2.2 y d hk hd
+        refine ⟨y', d', hk', hd', ?_⟩
+        rcases he' with h | h
+        · rw [h]; exact he
+        · exact Or.inr h
+  · have : step b (.poll i) = b := by simp only [step, hi, ↓reduceIte]
+    rw [this]
+    exact ⟨rfl, fun _ _ _ _ _ s => s, fun c => c, fun _ _ e => e⟩
+
+theorem pres_adv {n1 a e0 : Nat} (b : Bus) (dt : Nat) : Pres n1 a e0 b (step b (.adv dt)) := by
+  refine ⟨rfl, fun j nm A inb _ s => side_adv dt s, fun c => chgAt_adv dt c, fun inb _ e => ?_⟩
+  obtain ⟨y, d, hk, hd, he⟩ := e
+  exact ⟨{ y with s := { y.s with now := y.s.now + dt } }, d, by simp only [step, hk, kindAdv], hd, he⟩
+
+/-- effective deliveries of a timed schedule -/
+def effS (b : Bus) : List Sch → Nat
+  | [] => 0
+  | ev :: t =>
+    (match ev with
+     | .deliver i => if i < b.n ∧ (b.node i).inbox ≠ [] then 1 else 0
+     | _ => 0) + effS (step b ev.toEv) t
+
+/-- a schedule event keeps the phase (idle delivery, poll, clock advance) or is an effective delivery that consumes one -/
+def ProgressS (P : Nat → Bus → Prop) (k : Nat) (b : Bus) (ev : Sch) : Prop :=
+  (P k (step b ev.toEv) ∧ ∀ i, ev = .deliver i → i < b.n → (b.node i).inbox = []) ∨
+  (∃ k' i, ev = .deliver i ∧ k = k' + 1 ∧ P k' (step b ev.toEv) ∧ i < b.n ∧ (b.node i).inbox ≠ [])
+
+theorem converge_runS (P : Nat → Bus → Prop) (hstep : ∀ k b ev, P k b → ProgressS P k b ev) :
+    ∀ (evs : List Sch) (k : Nat) (b : Bus), P k b → ∃ k', P k' (run b (evs.map Sch.toEv)) ∧ k' + effS b evs = k
+  | [], k, b, h => ⟨k, h, rfl⟩
+  | ev :: t, k, b, h => by
+    simp only [List.map_cons, run, List.foldl_cons, effS]
+    rcases hstep k b ev h with ⟨hp, hidle⟩ | ⟨k', i, hev, hk, hp, hi, hne⟩
+    · obtain ⟨k2, h2, he⟩ := converge_runS P hstep t k _ hp
+      refine ⟨k2, h2, ?_⟩
+      have h0 : (match ev with
+          | .deliver i => if i < b.n ∧ (b.node i).inbox ≠ [] then 1 else 0
+          | _ => 0) = 0 := by
+        cases ev with
+        | deliver i =>
+          have : ¬ (i < b.n ∧ (b.node i).inbox ≠ []) := fun hh => hh.2 (hidle i rfl hh.1)
+          simp only [this, ↓reduceIte]
+        | poll i => rfl
+        | adv dt => rfl
+      rw [h0]; simpa [run] using he
+    · obtain ⟨k2, h2, he⟩ := converge_runS P hstep t k' _ hp
+      refine ⟨k2, h2, ?_⟩
+      subst hev
+      simp only [hi, hne, ne_eq, not_false_eq_true, and_self, ↓reduceIte]
+      omega
+
+theorem phT_step (n0 n1 a e0 : Nat) (hlt : n0 < n1) (ha : a ≤ 251) (k : Nat) (b : Bus) (h : PhT n0 n1 a e0 k b) (ev : Sch) :
+    ProgressS (PhT n0 n1 a e0) k b ev := by
+  obtain ⟨hn, ⟨A0, in0, S0⟩, ⟨A1, in1, S1⟩⟩ := phT_sides h
+  cases ev with
+  | poll i => exact Or.inl ⟨phT_pres (pres_poll hn S0 S1 i) h, fun _ hh => by cases hh⟩
+  | adv dt => exact Or.inl ⟨phT_pres (pres_adv b dt) h, fun _ hh => by cases hh⟩
+  | deliver i =>
+    obtain ⟨_, hk⟩ := h
+    have hn' : (step b (.deliver i)).n = 2 := by rw [step_deliver_n]; exact hn
+    have idle : ∀ {j nm A}, Side b j nm A [] → j = i → ProgressS (PhT n0 n1 a e0) k b (.deliver i) := by
+      intro j nm A hs hj
+      have e : step b (.deliver i) = b := by rw [← hj]; exact side_idle hs
+      refine Or.inl ⟨?_, fun i' hi' _ => ?_⟩
+      · show PhT n0 n1 a e0 k (step b (.deliver i)); rw [e]; exact ⟨hn, hk⟩
+      · cases hi'; rw [← hj, hs.2.1]; rfl
+    have far : 2 ≤ i → ProgressS (PhT n0 n1 a e0) k b (.deliver i) := by
+      intro hi
+      have e : step b (.deliver i) = b := step_far b i (by rw [hn]; omega)
+      refine Or.inl ⟨?_, fun i' hi' hh => ?_⟩
+      · show PhT n0 n1 a e0 k (step b (.deliver i)); rw [e]; exact ⟨hn, hk⟩
+      · cases hi'; rw [hn] at hh; omega
+    have ne0 : ∀ {nm A c r}, Side b 0 nm A (c :: r) → (0 : Nat) < b.n ∧ (b.node 0).inbox ≠ [] :=
+      fun h => ⟨by rw [hn]; omega, by rw [h.2.1]; simp⟩
+    have ne1 : ∀ {nm A c r}, Side b 1 nm A (c :: r) → (1 : Nat) < b.n ∧ (b.node 1).inbox ≠ [] :=
+      fun h => ⟨by rw [hn]; omega, by rw [h.2.1]; simp⟩
+    have rne : ∀ {r}, R a e0 r → r ≠ a := by
+      intro r hr; rcases hr with h | h <;> rw [h] <;> exact nxt_ne _ _ ha
+    have rOf : ∀ {d : Dev}, (d.endSource = e0 ∨ d.endSource = updEnd a) → R a e0 (nxt a d.endSource) := by
+      intro d hd; rcases hd with h | h
+      · left; rw [h]
+      · right; rw [h]
+    by_cases hi2 : 2 ≤ i
+    · exact far hi2
+    have hi : i < 2 := by omega
+    show (PhT n0 n1 a e0 k (step b (.deliver i)) ∧ ∀ i', Sch.deliver i = .deliver i' → i' < b.n → (b.node i').inbox = []) ∨
+      (∃ k' i', Sch.deliver i = .deliver i' ∧ k = k' + 1 ∧ PhT n0 n1 a e0 k' (step b (.deliver i)) ∧ i' < b.n ∧ (b.node i').inbox ≠ [])
+    match k, hk with
+    | 4, ⟨s0, s1, ⟨y, d, hky, hd, hde⟩⟩ =>
+      rcases (by omega : i = 0 ∨ i = 1) with rfl | rfl
+      · obtain ⟨x, dx, hkx, hdx⟩ := side_xd s0
+        have t := (side_deliver (ne0 s0).1 (by omega) s0 s1 hkx hdx).2.1 ha rfl hlt
+        refine Or.inr ⟨3, 0, rfl, rfl, ⟨hn', Or.inl ⟨t.1, by simpa using t.2, ?_⟩⟩, ne0 s0⟩
+        exact ⟨y, d, by rw [kind_other_step b 0 1 (by omega)]; exact hky, hd, hde⟩
+      · have t := (side_deliver (ne1 s1).1 (by omega) s1 s0 hky hd).2.2 ha rfl hlt
+        exact Or.inr ⟨3, 1, rfl, rfl, ⟨hn', Or.inr ⟨_, rOf hde, by simpa using t.2.1, t.1, t.2.2⟩⟩, ne1 s1⟩
+    | 3, hk =>
+      rcases hk with ⟨s0, s1, ⟨y, d, hky, hd, hde⟩⟩ | ⟨r, hr, s0, s1, hc⟩
+      · rcases (by omega : i = 0 ∨ i = 1) with rfl | rfl
+        · exact idle s0 rfl
+        · have t := (side_deliver (ne1 s1).1 (by omega) s1 s0 hky hd).2.2 ha rfl hlt
+          exact Or.inr ⟨2, 1, rfl, rfl, ⟨hn', _, rOf hde, by simpa using t.2.1, t.1, t.2.2⟩, ne1 s1⟩
+      · rcases (by omega : i = 0 ∨ i = 1) with rfl | rfl
+        · obtain ⟨x, dx, hkx, hdx⟩ := side_xd s0
+          have t := (side_deliver (ne0 s0).1 (by omega) s0 s1 hkx hdx).2.1 ha rfl hlt
+          exact Or.inr ⟨2, 0, rfl, rfl, ⟨hn', r, hr, t.1, by simpa using t.2, chgAt_other (by omega) hc⟩, ne0 s0⟩
+        · exact idle s1 rfl
+    | 2, ⟨r, hr, s0, s1, hc⟩ =>
+      rcases (by omega : i = 0 ∨ i = 1) with rfl | rfl
+      · obtain ⟨x, dx, hkx, hdx⟩ := side_xd s0
+        have t := (side_deliver (ne0 s0).1 (by omega) s0 s1 hkx hdx).1 (rne hr)
+        exact Or.inr ⟨1, 0, rfl, rfl, ⟨hn', r, hr, Or.inl ⟨t.1, t.2⟩, chgAt_other (by omega) hc⟩, ne0 s0⟩
+      · obtain ⟨y, dy, hky, hdy⟩ := side_xd s1
+        have t := (side_deliver (ne1 s1).1 (by omega) s1 s0 hky hdy).1 (fun hh => rne hr hh.symm)
+        exact Or.inr ⟨1, 1, rfl, rfl, ⟨hn', r, hr, Or.inr ⟨t.2, t.1⟩, chgAt_self s1 hc⟩, ne1 s1⟩
+    | 1, ⟨r, hr, hs, hc⟩ =>
+      rcases hs with ⟨s0, s1⟩ | ⟨s0, s1⟩
+      · rcases (by omega : i = 0 ∨ i = 1) with rfl | rfl
+        · exact idle s0 rfl
+        · obtain ⟨y, dy, hky, hdy⟩ := side_xd s1
+          have t := (side_deliver (ne1 s1).1 (by omega) s1 s0 hky hdy).1 (fun hh => rne hr hh.symm)
+          exact Or.inr ⟨0, 1, rfl, rfl, ⟨hn', r, hr, t.2, t.1, chgAt_self s1 hc⟩, ne1 s1⟩
+      · rcases (by omega : i = 0 ∨ i = 1) with rfl | rfl
+        · obtain ⟨x, dx, hkx, hdx⟩ := side_xd s0
+          have t := (side_deliver (ne0 s0).1 (by omega) s0 s1 hkx hdx).1 (rne hr)
+          exact Or.inr ⟨0, 0, rfl, rfl, ⟨hn', r, hr, t.1, t.2, chgAt_other (by omega) hc⟩, ne0 s0⟩
+        · exact idle s1 rfl
+    | 0, ⟨r, hr, s0, s1, _⟩ =>
+      rcases (by omega : i = 0 ∨ i = 1) with rfl | rfl
+      · exact idle s0 rfl
+      · exact idle s1 rfl
+
+theorem phT_zero {n0 n1 a e0 : Nat} {b : Bus} (ha : a ≤ 251) (h : PhT n0 n1 a e0 0 b) :
+    quiescent b ∧ claimants (b.node 0).kind = [(n0, a)] ∧
+    (∃ r, R a e0 r ∧ r ≠ a ∧ claimants (b.node 1).kind = [(n1, r)]) ∧ ChgAt b 1 := by
+  obtain ⟨hn, r, hr, s0, s1, hc⟩ := h
+  refine ⟨fun i hi => ?_, side_claimants s0, ⟨r, hr, ?_, side_claimants s1⟩, hc⟩
+  · rw [hn] at hi
+    rcases (by omega : i = 0 ∨ i = 1) with rfl | rfl
+    · rw [s0.2.1]; rfl
+    · rw [s1.2.1]; rfl
+  · rcases hr with h | h <;> rw [h] <;> exact nxt_ne _ _ ha
+
+theorem phT_pending {n0 n1 a e0 : Nat} {b : Bus} {k : Nat} (h : PhT n0 n1 a e0 (k + 1) b) :
+    ∃ i, i < b.n ∧ (b.node i).inbox ≠ [] := by
+  obtain ⟨hn, hk⟩ := h
+  have p0 : ∀ {nm A c r}, Side b 0 nm A (c :: r) → ∃ i, i < b.n ∧ (b.node i).inbox ≠ [] :=
+    fun h => ⟨0, by rw [hn]; omega, by rw [h.2.1]; simp⟩
+  have p1 : ∀ {nm A c r}, Side b 1 nm A (c :: r) → ∃ i, i < b.n ∧ (b.node i).inbox ≠ [] :=
+    fun h => ⟨1, by rw [hn]; omega, by rw [h.2.1]; simp⟩
+  match k, hk with
+  | 3, hk => exact p0 hk.1
+  | 2, hk =>
+    rcases hk with hk | ⟨r, _, s0, _⟩
+    · exact p1 hk.2.1
+    · exact p0 s0
+  | 1, ⟨r, _, s0, _⟩ => exact p0 s0
+  | 0, ⟨r, _, hs, _⟩ =>
+    rcases hs with ⟨_, s1⟩ | ⟨s0, _⟩
+    · exact p1 s1
+    · exact p0 s0
+
 end N2k.Bus
